@@ -178,6 +178,12 @@ MUTANTS = [
      "    else:\n        a = alpha\n    return",
      "    else:\n        a = CellVariable(phi.domain, float(np.mean(alpha.value)), BoundaryConditions(phi.domain))\n    return",
      ["C12"], "caught"),
+    # --------------------------------------------- found only by fault injection
+    ("cached-bc-system-not-copied", P,
+     "    M = Mbc.copy() # need to copy, so that original 'bcterm' is protected\n    RHS = RHSbc.copy() # need to copy, so that original 'bcterm' is protected",
+     "    M = Mbc\n    RHS = RHSbc", ["C09", "C04", "C12", "C15"], "caught"),
+    # ^ harmless on every successful solve (the closing apply_BCs() rebuilds the
+    #   cache); manifests only when the solve fails after accumulation
     # ------------------------------------------- behaviour-preserving refactors
     ("SILENT-never-clear-bits", C,
      "        self.BCs.modified = False\n        self.value.modified = False\n        \n        \n    def update_value",
@@ -284,6 +290,11 @@ def main():
     out = os.path.join(HERE, "mutants_result.json")
     if not a.only:
         json.dump(results, open(out, "w"), indent=1)
+    elif os.path.exists(out):
+        prev = json.load(open(out))
+        byname = {r["name"]: r for r in results}
+        merged = [byname.pop(r["name"], r) for r in prev] + list(byname.values())
+        json.dump(merged, open(out, "w"), indent=1)
     bad = [r["name"] for r in results if not r.get("ok")]
     print("mutants: %d run, %d as expected, not as expected: %s" % (len(results),
                                                                    len(results) - len(bad), bad))
